@@ -20,7 +20,7 @@ Ops:
   holds <p2s> <peer> <share>                   → `T`/`F`: `share in p2s[peer]` (`Holds`)
   told <total> <nsrv> <readonly> <held>         → the selector state the ground truth prescribes (`toldState`), as `S:…`
   sel <cfg> <total> op op …                    → PeerSelector history: `a:P` add_peer, `s:P:N` add_peer_with_share,
-        `r:P` mark_readonly_peer, `b:P` mark_bad_peer, `g` get_share_placements; one field per op joined by `;`
+        `r:P` mark_readonly_peer, `f:P` allocation failed or timed out (= demotion), `b:P` mark_bad_peer, `g` get_share_placements; one field per op joined by `;`
         (`-` None, `KeyError`, or the plan), then `S:<peers>|<readonly>|<bad>|<existing>` (state afterwards)
 -/
 open Tahoe.Drv Tahoe.Happiness
@@ -81,6 +81,7 @@ def parseSelOp (t : String) : Option SelOp :=
   | ["a", p] => do pure (.addPeer (← p.toNat?))
   | ["s", p, n] => do pure (.addPeerWithShare (← p.toNat?) (← n.toNat?))
   | ["r", p] => do pure (.markReadonly (← p.toNat?))
+  | ["f", p] => do pure (SelOp.allocationFailed (← p.toNat?))
   | ["b", p] => do pure (.markBad (← p.toNat?))
   | ["g"] => some .getPlacements
   | _ => none
